@@ -110,6 +110,9 @@ PROPS = {
                 ("tie_GoFbStats_Success", "CM.GoTie.GoFbStats.go_Success_eq", "fallback success counter"),
                 ("tie_GoFbStats_ErrFailure", "CM.GoTie.GoFbStats.go_ErrFailure_eq", "fallback failure counter"),
                 ("tie_GoFbStats_ErrConcurrencyLimitReject", "CM.GoTie.GoFbStats.go_ErrConcurrencyLimitReject_eq", "fallback rejection counter")]) +
+            T("GoStream", [
+                ("tie_stream_record", "CM.GoTie.GoStream.stream_record_tie", "today's `collectCommandMetrics` fills every count field with `All.streamCounts` (all read at ONE instant: the configured clock's reading), plus name, IsOpen, gauge, error percentage and the latency block"),
+                ("tie_stream_record_detached", "CM.GoTie.GoStream.stream_record_detached", "a circuit without the rolling collectors is still shown, every count zero")]) +
             T("GoSlo", evs("GoSlo", "Cons.Slo.onRun (through `SloW.onRun`)") + [
                 ("tie_GoSlo_failure", "CM.GoTie.GoSlo.go_failure_eq", "a fail verdict moves the counter and tells every collector"),
                 ("tie_GoSlo_healthy", "CM.GoTie.GoSlo.go_healthy_eq", "a pass verdict likewise"),
